@@ -2,13 +2,35 @@
 From Coq Require Import List NArith Bool.
 From Coq.Strings Require Import Byte.
 From Connect Require Import Bytes Generated Dispatch Envelope GoIO.
-From Connect Require Export Compression ExecBase.
+From Connect Require Export Compression CPool ExecBase.
 Import ListNotations.
 Local Open Scope N_scope.
 
 Inductive nobs :=
 | ONegErr (names_in_message : bytes)                  (* unimplemented; user code did not run *)
 | ONegOk (response_encoding accept_header : bytes).   (* "" = no encoding header *)
+
+Inductive pobs := OR | OC | OP.
+
+Definition pobs_eqb (a b : pobs) : bool :=
+  match a, b with OR, OR | OC, OC | OP, OP => true | _, _ => false end.
+
+Fixpoint pobs_list_eqb (a b : list pobs) : bool :=
+  match a, b with
+  | [], [] => true
+  | x :: a', y :: b' => pobs_eqb x y && pobs_list_eqb a' b'
+  | _, _ => false
+  end.
+
+(* the events of a trace that the pooled object itself can see *)
+Fixpoint visible (t : list pev) : list pobs :=
+  match t with
+  | [] => []
+  | PReset :: r => OR :: visible r
+  | PClose :: r => OC :: visible r
+  | PPark :: r => OP :: visible r
+  | _ :: r => visible r
+  end.
 
 Inductive c08case :=
 (* handler side: registration order (gzip first, then the options), request headers *)
@@ -18,7 +40,10 @@ Inductive c08case :=
 (* client side: does the client accept the encoding the server named? *)
 | ClientValidate (registered : list bytes) (enc : bytes) (accepted : bool)
 (* one message written with the tag compressor: exact wire bytes *)
-| WireCase (tag : byte) (pool : bool) (min_bytes : N) (payload wire : bytes).
+| WireCase (tag : byte) (pool : bool) (min_bytes : N) (payload wire : bytes)
+(* what a tracked pooled decompressor saw while the implementation decompressed one
+   message ending in the given branch: R = Reset(source), C = Close, P = parking Reset *)
+| DecompTrace (o : doutcome) (observed : list pobs).
 
 Definition c08_ok (c : c08case) : bool :=
   match c with
@@ -36,4 +61,5 @@ Definition c08_ok (c : c08case) : bool :=
   | ClientValidate registered enc accepted => Bool.eqb (client_accepts registered enc) accepted
   | WireCase tag pool min_bytes payload wire =>
     bs_eqb (env_write (fun x => tag :: x) pool min_bytes 0 payload) wire
+  | DecompTrace o observed => pobs_list_eqb (visible (decompress_trace o)) observed
   end.
